@@ -60,24 +60,28 @@ fn available_for_bnb_after_reservations(
         .copied()
         .unwrap_or(Decimal::ZERO);
 
-    let available_before_same_day = buy_amount - already_reserved;
-    if available_before_same_day <= Decimal::ZERO {
-        return Decimal::ZERO;
-    }
-
     // Reserve shares for Same Day matching on this acquisition date.
     // Per TCGA92/S106A(9), B&B is "subject to" Same Day rule (S105(1)).
-    // Reservation is tracked across all same-day lots for this date+ticker,
-    // so interleaved buys cannot over-reserve.
+    // The reservation depends only on the acquisition date's own trades, never on
+    // which earlier disposal is asking: the date's disposals are allocated to its
+    // lots in order, and every asking disposal sees the same reserved amount.
     let reservation_key = (tx.date, tx.ticker.clone());
-    let reservation_remaining = same_day_reservations
+    let same_day_disposals = *same_day_reservations
         .entry(reservation_key)
         .or_insert_with(|| same_day_disposal_quantity(tx.date, &tx.ticker, all_transactions));
+    let earlier_lots: Decimal = all_transactions
+        .iter()
+        .take(idx)
+        .filter(|other| other.date == tx.date && other.ticker == tx.ticker)
+        .filter_map(|other| match &other.operation {
+            Operation::Buy { amount, .. } => Some(*amount),
+            _ => None,
+        })
+        .sum();
+    let reserved_for_same_day =
+        buy_amount.min((same_day_disposals - earlier_lots).max(Decimal::ZERO));
 
-    let reserve_now = available_before_same_day.min((*reservation_remaining).max(Decimal::ZERO));
-    *reservation_remaining -= reserve_now;
-
-    available_before_same_day - reserve_now
+    (buy_amount - reserved_for_same_day - already_reserved).max(Decimal::ZERO)
 }
 
 fn matched_buy_cost(
